@@ -747,7 +747,7 @@ def _main(run: core.Run, audit: dict, tables: dict, stats: Counter) -> None:
     ):
         drift += core.fingerprint_drift("C15", rel, names)
     run.coverage["fingerprint_drift"] = drift
-    n_models = run.size(260, 3000)
+    n_models = run.size(260, 2500)
     n_serde = run.size(350, 5000)
     if drift and run.tier == "quick":
         n_models *= 2
